@@ -10,8 +10,12 @@ CHECK = dict(
     floor={"plain-tbb:calls_parallel_for": 500, "plain-omp:calls_parallel_for": 500,
            "plain-internal:calls_parallel_for": 500, "plain-debug:calls_parallel_for": 100,
            "plain-tbb:max_threads_in_one_call": 2, "plain-omp:max_threads_in_one_call": 2,
-           "plain-internal:max_threads_in_one_call": 2},
+           "plain-internal:max_threads_in_one_call": 2,
+           "plain-tbb:loops_ended_by_exception": 20, "plain-tbb:loops_ended_by_cancellation": 20,
+           "plain-debug:loops_ended_by_exception": 5},
     assumptions=[
+        "a loop whose body throws or cancels its task group (TBB / serial backend only; the other backends terminate) is not judged "
+        "for completeness; the loops issued after it from the same call sites are",
         "schedules are sampled (stress, oversubscription, uneven body cost, delays at enkiTS hook points), not enumerated",
         "calls are issued from the thread that initialised the tasking system or from inside tasks",
         "counts > 10^7 and counts > INT_MAX (internal backend truncation) are not executed",
